@@ -15,7 +15,7 @@ use serde_json::json;
 pub static SPEC: PropSpec = PropSpec {
     id: "C04",
     level: "exploration",
-    rule: "inputs: corpus files, token/line/char mutations and splices of corpus files, token soups, targeted well-formed shapes aimed at post-parser panic sites, bounded deep nesting (<= 64) of every recursive construct, generated programs; each is run through compile (+ Go pretty-printing and all 8 stage dumps on success) and typecheck_with_packages; an input is non-trivial when it has >= 1 non-error token and reaches beyond the lexer; distinct by content hash",
+    rule: "inputs: corpus files, token/line/char mutations and splices of corpus files, token soups, targeted well-formed shapes aimed at post-parser panic sites, bounded deep nesting (<= 64) of every recursive construct, a generic-signature family (type parameter in 19 type-constructor positions of parameter and result x 8 instantiations), generated well-typed programs and generic-library programs; each is run through compile (+ Go pretty-printing and all 8 stage dumps on success) and typecheck_with_packages; an input is non-trivial when it has >= 1 non-error token and reaches beyond the lexer; distinct by content hash",
     eval_counter: "inputs",
     assumptions: &[
         "termination is bounded progress: 10 CPU-seconds and 3 GiB resident per input of <= 64 KiB; peers take milliseconds",
